@@ -131,7 +131,12 @@ impl Monitor for C18 {
         if near_names { for name in ["Tab", "TAB", "tAb"] { if rng.chance(2, 3) { let (s, _) = wide_table(name, 3 + rng.below(4)); defs.push(s.text()); } } }
         let mut sel = Sel { from: main.into(), ..Default::default() };
         match rng.below(5) {
-            0 => { sel.projs.push((E::Star, None)); if rng.chance(1, 2) { sel.filter = Some(bin(">=", col(ints[0]), int(rng.range(0, 10)))); } }
+            0 => {
+                sel.projs.push((E::Star, None));
+                if rng.chance(1, 2) { sel.filter = Some(bin(">=", col(ints[0]), int(rng.range(0, 10)))); }
+                // a list whose later entries cannot be compared with the operand: which rows fail must not vary between runs
+                else if rng.chance(1, 2) { sel.filter = Some(E::In(rng.chance(1, 3), b(col(ints[0])), vec![int(rng.range(0, 20)), int(rng.range(0, 20)), text("OK"), int(rng.range(0, 20)), E::Bool(true)])); }
+            }
             1 | 2 => {
                 let k1 = col(*rng.pick(&texts)); let k2 = col(*rng.pick(&ints));
                 let keys = if rng.chance(1, 2) { vec![k1.clone(), k2.clone()] } else { vec![k1.clone()] };
